@@ -192,10 +192,11 @@ static void staticArrayCase(Rng& rng, unsigned maxOps, const char* tname) {
 			}
 		unsigned n = 0, n2 = 0;
 #if CONT_STATIC_ITER
-		for (const T& x : ca) { if (n >= C || x != m[n]) { viol(fmt("staticarray.iteration|T=%s", tname), fmt("StaticArrayT<%s,%u>: const iteration element %u wrong after %s", tname, C, n, after)); return; } ++n; }
+		// a value stored while a read-only traversal is under way is the value the traversal meets at that index
+		for (const T& x : ca) { if (n == 0 && C > 1) { a[C - 1] = m[0]; m[C - 1] = m[0]; } if (n >= C || x != m[n]) { viol(fmt("staticarray.iteration|T=%s", tname), fmt("StaticArrayT<%s,%u>: const iteration element %u wrong after %s", tname, C, n, after)); return; } ++n; }
 		{
 			unsigned nc = 0;
-			for (auto it = a.cbegin(); it != a.cend(); ++it) { if (nc >= C || *it != m[nc]) { viol(fmt("staticarray.iteration|cbegin|T=%s", tname), fmt("StaticArrayT<%s,%u>: cbegin/cend iteration element %u wrong after %s", tname, C, nc, after)); return; } ++nc; }
+			for (auto it = a.cbegin(); it != a.cend(); ++it) { if (nc == 0 && C > 2) { a[C - 1] = m[C / 2]; m[C - 1] = m[C / 2]; } if (nc >= C || *it != m[nc]) { viol(fmt("staticarray.iteration|cbegin|T=%s", tname), fmt("StaticArrayT<%s,%u>: cbegin/cend iteration element %u wrong after %s", tname, C, nc, after)); return; } ++nc; }
 			if (nc != C) viol(fmt("staticarray.iteration-count|cbegin|T=%s", tname), fmt("StaticArrayT<%s,%u>: cbegin/cend visited %u of %u", tname, C, nc, C));
 		}
 		for (T& x : a) { if (n2 >= C || x != m[n2]) { viol(fmt("staticarray.iteration|T=%s", tname), fmt("StaticArrayT<%s,%u>: iteration element %u wrong after %s", tname, C, n2, after)); return; } ++n2; }
@@ -292,10 +293,10 @@ static void dynamicArrayCase(Rng& rng, unsigned maxOps, const char* tname) {
 		for (unsigned j = 0; j < m.size(); ++j)
 			if (a[j] != m[j] || ca[j] != m[j]) { viol(fmt("dynarray.element!=model|after=%s|T=%s", after, tname), fmt("DynamicArrayT<%s,%u>[%u] differs after %s; %s", tname, C, j, after, l.text.c_str())); return; }
 		unsigned n = 0;
-		for (const T& x : ca) { if (n >= m.size() || x != m[n]) { viol(fmt("dynarray.iteration|T=%s", tname), fmt("DynamicArrayT<%s,%u>: iteration element %u wrong after %s", tname, C, n, after)); return; } ++n; }
+		for (const T& x : ca) { if (n == 0 && m.size() > 1) { a[static_cast<unsigned>(m.size() - 1)] = m[0]; m[m.size() - 1] = m[0]; } if (n >= m.size() || x != m[n]) { viol(fmt("dynarray.iteration|T=%s", tname), fmt("DynamicArrayT<%s,%u>: iteration element %u wrong after %s", tname, C, n, after)); return; } ++n; }
 		{
 			unsigned nc = 0;
-			for (auto it = a.cbegin(); it != a.cend(); ++it) { if (nc >= m.size() || *it != m[nc]) { viol(fmt("dynarray.iteration|cbegin|T=%s", tname), fmt("DynamicArrayT<%s,%u>: cbegin/cend iteration element %u wrong after %s", tname, C, nc, after)); return; } ++nc; }
+			for (auto it = a.cbegin(); it != a.cend(); ++it) { if (nc == 0 && m.size() > 2) { a[static_cast<unsigned>(m.size() - 1)] = m[m.size() / 2]; m[m.size() - 1] = m[m.size() / 2]; } if (nc >= m.size() || *it != m[nc]) { viol(fmt("dynarray.iteration|cbegin|T=%s", tname), fmt("DynamicArrayT<%s,%u>: cbegin/cend iteration element %u wrong after %s", tname, C, nc, after)); return; } ++nc; }
 			if (nc != m.size()) viol(fmt("dynarray.iteration-count|cbegin|T=%s", tname), fmt("DynamicArrayT<%s,%u>: cbegin/cend visited %u of %zu", tname, C, nc, m.size()));
 		}
 		unsigned n2 = 0;
